@@ -7,6 +7,7 @@ quadrature ladder).  The harness computes every route on sampled classes and
 spec/LensRoutesTrace.tla validates the recorded defects (code -> spec).
 """
 import math
+import warnings
 import os
 import random
 import sys
@@ -38,6 +39,67 @@ def rel(a, b, scale):
     if not (np.all(np.isfinite(a)) and np.all(np.isfinite(b))):
         return float("inf")
     return float(np.max(np.abs(a - b))) / scale
+
+
+def scan_catalogue():
+    """one sphere, six lens requests (LensRoutes.tla, ScanCatalogue)"""
+    det = detector_points(x=np.array([0.0, 0.7, -1.6, 2.4]), y=np.array([0.3, -0.9, 1.1, 0.2]), z=0.0)
+    sc = Sphere(n=1.6 * NMED, r=5.0 / K, center=(0.0, 0.0, 60.0 / K))
+    kw = dict(medium_index=NMED, illum_wavelen=WL, illum_polarization=(math.cos(math.pi / 6), math.sin(math.pi / 6)))
+    f = lambda th: (lambda: calc_field(det, sc, theory=th(), **kw).values)
+    return [f(lambda: MieLens(lens_angle=0.6)), f(lambda: MieLens(lens_angle=1.0)),
+            f(lambda: AberratedMieLens(spherical_aberration=[0.0], lens_angle=0.6)),
+            f(lambda: AberratedMieLens(spherical_aberration=0.0, lens_angle=1.0)),
+            f(lambda: MieLens(lens_angle=0.6, calculator_accuracy_kwargs={"quad_npts": 200})),
+            f(lambda: Lens(1.0, Mie(False, False), 40, 40))]
+
+
+def run_scan_entry(idx):
+    import hashlib
+    with warnings.catch_warnings():
+        warnings.simplefilter("ignore")
+        v = scan_catalogue()[idx - 1]()
+    return hashlib.sha1(np.ascontiguousarray(v).tobytes()).hexdigest()
+
+
+def job_scan_baseline(idx):
+    return run_scan_entry(idx)
+
+
+def scan(ctx, rng, quick):
+    """every sequence of <= MaxCalls requests in ONE interpreter; each answer must be the fresh-process one"""
+    import isolate
+    from concurrent.futures import ThreadPoolExecutor
+    gs = ctx.tlc_graph("LensRoutes", "LensRoutes_scan.cfg", constants={"MaxCalls": 2 if quick else 3})
+    n = len(scan_catalogue())
+    with ThreadPoolExecutor(n) as ex:
+        base = [r[0] for r in ex.map(lambda i: isolate.run_jobs([("c08:job_scan_baseline", {"idx": i})]), range(1, n + 1))]
+    fresh = {}
+    for i, r in enumerate(base):
+        if r is None or r["outcome"] != "returned":
+            raise harness.MachineryError("fresh-process lens baseline %d failed: %r" % (i + 1, r))
+        fresh[i + 1] = r["result"]
+    seqs = sorted({tuple(gs.states[s]["log"]) for s in gs.states if len(gs.states[s]["log"]) >= 1})
+    if not any(len(q) >= 2 for q in seqs):
+        raise harness.MachineryError("scan graph has no sequence of two requests")
+    for seq in seqs:
+        ctx.case(("scan", seq), nontrivial=len(seq) >= 2)
+        ok = True
+        for c in seq:
+            try:
+                h = run_scan_entry(c)
+            except Exception as e:
+                ctx.violation("scan/exception", {"sequence": list(seq), "call": c, "exc": repr(e)[:200]})
+                ok = False
+                break
+            if h != fresh[c]:
+                ctx.violation("scan/result_depends_on_history", {"sequence": list(seq), "call": c,
+                                                                 "note": "differs from the fresh-process answer"})
+                ok = False
+                break
+        if ok:
+            ctx.trace_ok()
+    ctx.notes["scan_sequences"] = len(seqs)
 
 
 def run(ctx):
@@ -106,6 +168,14 @@ def run(ctx):
                 ab.append(rel(field(AberratedMieLens(spherical_aberration=[0.0] * k, lens_angle=ang,
                                                      calculator_accuracy_kwargs=off)), d_off, scale))
             ev["mb_aberrated"] = quant.mb(max(ab))
+            # zero aberration under NON-default accuracy options = MieLens under the same options (exact)
+            so = []
+            for opts_ in ({"interpolate_integrals": True, "interpolator_degree": 6, "interpolator_window_size": 60.0},
+                          {"interpolate_integrals": False, "quad_npts": 300}):
+                a_ = field(AberratedMieLens(spherical_aberration=[0.0, 0.0], lens_angle=ang, calculator_accuracy_kwargs=dict(opts_)))
+                m_ = field(MieLens(lens_angle=ang, calculator_accuracy_kwargs=dict(opts_)))
+                so.append(rel(a_, m_, scale))
+            ev["mb_same_options"] = quant.mb(max(so))
             # numerical wrapper: quadrature ladder sized from the phase variation over the pupil
             nt0 = int(30 + 1.2 * abs(kz) * (1 - math.cos(ang)) + 0.6 * krho_max * math.sin(ang) + 1.5 * x)
             np0 = int(30 + 0.9 * krho_max * math.sin(ang) + 1.5 * x)
@@ -123,6 +193,7 @@ def run(ctx):
             if k.startswith("mb_"):
                 worst[k] = max(worst.get(k, -20000), v)
         traces.append([ev])
+    scan(ctx, rng, quick)
     verdicts = tracemod.validate(ctx, "LensRoutesTrace", traces)
     for tr, (acc, line, clauses) in zip(traces, verdicts):
         if acc:
